@@ -222,19 +222,37 @@ def applyEff (e : PEff) (p : PImg) : PImg :=
 
 def applyEffs (es : List PEff) (p : PImg) : PImg := es.foldl (fun p e => applyEff e p) p
 
+/-- the node a property key belongs to (keys of the model: node · 10000 + j; the first 5 bytes of
+    the real key are tag + node) -/
+def keyNode (q : Nat) : Nat := q / 10000
+
+/-- a leaf rewrite that inserts ONE cell (`leaf_insert_at`: the slot array, in the first half of
+    the page, gets the new slot at position `i`; the cell itself is put below the existing cells —
+    cell n occupies the bytes [8192 − 27(n+1), 8192 − 27n)): torn, a new cell that lies in the second
+    half (27·n ≤ 4096) is bytes that were never written — the entry at `i` is unreadable, all
+    others are as before; the ONE cell that straddles the middle of the page (n = 152) keeps the
+    head of its key (tag + node) and loses the rest: it compares below every key of its node, and
+    the prefix scan of that node runs into it and fails (`some (keyNode q)`: a marker below all keys) -/
+def tornInsert (oes es : List (Option Nat)) : Option (List (Option Nat)) :=
+  let i := ((List.range oes.length).find? (fun j => es.getD j none != oes.getD j none)).getD oes.length
+  if es.length = oes.length + 1 ∧ es.take i = oes.take i ∧ es.drop (i + 1) = oes.drop i ∧ 27 * oes.length < 4096
+  then some (es.set i (if 27 * es.length ≤ 4096 then none else (es.getD i none).map keyNode)) else none
+
 /-- what reaches the disk of a page write that is torn in the middle (first half of the page
     persists, 512-byte sectors are atomic): meta fields, catalog entries, blob/segment contents of
     the sizes used here and B-tree page headers + slot arrays lie in the first half; a node-table
-    slot ≥ 256, a freshly appended leaf cell (cells grow downwards from the page end; while
-    27·(n+1) ≤ 4096) and the cells of an internal root lie in the second half. -/
+    slot ≥ 256, a freshly inserted leaf cell (cells grow downwards from the page end; while
+    27·(n+1) ≤ 4096) and the cells of an internal root lie in the second half; a deletion only
+    shifts slots (first half). -/
 def tornEff (p : PImg) : PEff → Option PEff
   | .slot i x => if i < 256 then some (.slot i x) else none
   | .leaf k i es sib pid =>
     let old := ((p.trees.find? (fun t => t.key == k)).bind (fun t => t.leaves[i]?)).map (·.entries)
     match old with
     | some oes =>
-      if es.length = oes.length + 1 ∧ es.take oes.length = oes ∧ 27 * es.length ≤ 4096
-      then some (.leaf k i (oes ++ [none]) sib pid) else some (.leaf k i es sib pid)
+      match tornInsert oes es with
+      | some r => some (.leaf k i r sib pid)
+      | none => some (.leaf k i es sib pid)
     | none =>
       -- a leaf on a fresh page (the right half of a split): the cells in the second half of the
       -- page — the first ⌊4096/27⌋ ones, cells grow downwards from the page end — do not persist
@@ -333,5 +351,11 @@ def scanSeekOk (p : PImg) (key : Nat) (top : Bool) (q0 : Nat) : Bool :=
          !(decide (2 ≤ seps.length) && seps.all (· == 0)) && decide ((seps.filter (· < q0)).length < t.leaves.length)
        | none => false)
     | none => false
+
+/-- the prefix scan of the node of key `q0` runs into a half-written cell of that node (`tornInsert`) -/
+def scanHitsTorn (p : PImg) (key : Nat) (q0 : Nat) : Bool :=
+  match p.trees.find? (fun t => t.key == key) with
+  | some t => t.leaves.any (fun l => l.entries.contains (some (keyNode q0)))
+  | none => false
 
 end Nervus.Crash
